@@ -180,6 +180,19 @@ CLAIMS["C08"] = dict(
     design_ref="DESIGN.md section 4, C08",
     technique="static analysis: sparse conditional constant propagation over dual rational constants (abstract interpretation of the material factories), non-commutative polynomial frame typing, polynomial identity checking")
 
+CLAIMS["C09"] = dict(
+    category="other",
+    text=("Decides by abstract interpretation of J2Plastic on generic symbolic tensors (both outcomes of every undecidable "
+          "comparison): the flow direction and the tensor segment of every state increment are identically traceless, increments "
+          "have NUM_STATE_VARS entries, the state layout constants agree with initial states and updates, the finite update is "
+          "exp_symm(increment segment) @ Fp_old with consistent frames (so det Fp is preserved); the root-finder bracket starts at "
+          "the old equivalent plastic strain and has width (trial Mises - flow stress)/(3 mu), the increment is root - old and the "
+          "elastic branch adds zero; the residual is d(incremental_potential)/d(eqps) and the root lambda varies exactly that "
+          "slot; each kinematics option pairs the energy's strain measure with the state update that uses it. Yield consistency "
+          "to tolerance, minimality, idempotence and the size of the degeneracy tolerance are NOT decided."),
+    design_ref="DESIGN.md section 4, C09",
+    technique="static analysis: abstract interpretation on generic symbolic tensors with path splitting, role analysis of root-finder arguments, slot agreement, option dispatch pairing, frame typing")
+
 NA = {}
 
 
